@@ -16,6 +16,9 @@ def local_wall(sec, off, us=0):
 
 
 def drive(ctx):
+    from .. import gr
+
+    gr.replay(ctx)          # behaviours of the Session state machine: queries on values with a history
     q = ctx.quick()
     full = ctx.backend == "rs" or not q
     rnd = ctx.rnd
